@@ -6,7 +6,7 @@
    inside a transaction. *)
 From Coq Require Import ZArith List Bool.
 From Model Require Import PyBase Cache.
-From Proofs Require Import CacheProofs CacheWf CacheCopy CacheCoh CacheWorld CacheUnion CacheTheorems CacheUsable CacheExamples CacheTxn CacheFresh CacheFreshOps CacheFreshWorld CacheFreshUnion CacheFreshSplit CacheInj CacheInjOps CacheInjWorld CacheFreshPatch CacheFreshFull.
+From Proofs Require Import CacheProofs CacheWf CacheCopy CacheCoh CacheWorld CacheUnion CacheTheorems CacheUsable CacheExamples CacheTxn CacheFresh CacheFreshOps CacheFreshWorld CacheFreshUnion CacheFreshSplit CacheInj CacheInjOps CacheInjWorld CacheFreshPatch CacheFreshFull CacheStereo.
 Import ListNotations.
 Open Scope Z_scope.
 
@@ -234,3 +234,23 @@ Theorem C13_parts_example :
   map (fun o => keys (o_atoms o)) (s_others (run parts_history empty_state)) = [[2; 3]; [1; 2]; [2; 3; 4]; [4]; [1; 2; 3]].
 Proof. exact parts_example. Qed.
 Print Assumptions C13_parts_example.
+
+(* ---- fix_stereo as an abstract operation (labels flushed, then restored round by round while the atom is a stereocentre given
+   the labels restored so far; the result = the labels once the rounds are stable).  `chiral` is universally quantified with ONE
+   hypothesis: it depends only on the atom's connected component.  Then two molecules that look the same on a set closed under
+   adjacency - a molecule before and after an edit elsewhere - end up with the same labels there, however many rounds each
+   needs: the theorem counterpart of the stereo-locality oracle of the search *)
+Theorem C13_fix_stereo_local :
+  forall (chiral : view -> labelling -> Z -> bool),
+  (forall C v v' l l', closedv v C -> closedv v' C -> agree C v v' l l' -> forall n, In n C -> chiral v l n = chiral v' l' n) ->
+  forall C v v' st st' k k',
+  closedv v C -> closedv v' C -> agree C v v' st st' -> stable chiral v st k -> stable chiral v' st' k' ->
+  forall n, In n C -> rounds chiral v st k n = rounds chiral v' st' k' n.
+Proof. exact fix_stereo_local. Qed.
+Print Assumptions C13_fix_stereo_local.
+
+(* the hypothesis is satisfiable: e.g. 'exactly four neighbours' is local *)
+Theorem C13_fix_stereo_local_nonvacuous : forall C v v' l l', closedv v C -> closedv v' C -> agree C v v' l l' ->
+  forall n, In n C -> four_nbrs v l n = four_nbrs v' l' n.
+Proof. exact four_nbrs_local. Qed.
+Print Assumptions C13_fix_stereo_local_nonvacuous.
